@@ -82,6 +82,8 @@ def _update_path_functions(col):
                     tgt = FnCtx(r[0].module, r[0], r[1])
             elif isinstance(c.func, ast.Name) and c.func.id.startswith("_") and c.func.id in cx.module.functions:
                 tgt = FnCtx(cx.module, None, cx.module.functions[c.func.id])
+            if tgt is not None and any(isinstance(x, (ast.Yield, ast.YieldFrom)) for x in A.walk(tgt.fn)):
+                tgt = None      # generator / context-manager helper: dissolved into (and judged in) the function that uses it
             if tgt is not None and id(tgt.fn) not in seen:
                 seen.add(id(tgt.fn))
                 out.append(tgt)
@@ -117,8 +119,19 @@ def _runs_user_code(repo, cx: FnCtx, f, depth=2) -> bool:
     return False
 
 
+def _normalised(col, cx: FnCtx) -> FnCtx:
+    """the function with its private helpers, context managers and generator helpers dissolved (falls back to the function as written)"""
+    try:
+        if cx.cls is not None:
+            return sctx(col.repo, cx.cls.name, cx.fn.name).cx if cx.cls.methods.get(cx.fn.name) is cx.fn else cx
+        mod = cx.module.name.split(".", 1)[1]
+        return sctx(col.repo, None, cx.fn.name, mod).cx
+    except (AnalysisError, NotImplementedError, KeyError):
+        return cx
+
+
 def _no_swallowing(col, rule="C18.R1"):
-    fns = _update_path_functions(col)
+    fns = [_normalised(col, cx) for cx in _update_path_functions(col)]
     col.count("update_path_functions", len(fns))
     for cx in fns:
         tries = [n for n in A.walk(cx.fn) if isinstance(n, ast.Try)]
@@ -133,7 +146,16 @@ def _no_swallowing(col, rule="C18.R1"):
                     continue
                 allowed = cx.cls is not None and cx.cls.name in ZERO_DIV_CLASSES and cx.fn.name == "_get_value" and types == ["ZeroDivisionError"]
                 if allowed:
-                    body_ok = len(h.body) == 1 and isinstance(h.body[0], ast.Return) and A.src(h.body[0].value) in ("float('nan')", "math.nan", "float(\"nan\")")
+                    NAN = ("float('nan')", "math.nan", "float(\"nan\")", "np.nan", "numpy.nan")
+                    body_ok = len(h.body) == 1 and isinstance(h.body[0], ast.Return) and A.src(h.body[0].value) in NAN
+                    if not body_ok and all(isinstance(x, ast.Pass) for x in h.body):
+                        # falls out of the handler: everything returned from there on is NaN
+                        hn = cx.cfg.node_of(h)
+                        after = [cx.cfg.nodes[r].ast for r in (cx.cfg.reachable(hn) if hn is not None else [])
+                                 if cx.cfg.nodes[r].kind == "stmt" and isinstance(cx.cfg.nodes[r].ast, ast.Return)]
+                        inside = {id(n) for st_ in t.body for n in A.walk(st_)}
+                        after = [r for r in after if id(r) not in inside]
+                        body_ok = bool(after) and all(r.value is not None and A.src(r.value) in NAN for r in after)
                     narrow = all(isinstance(s, (ast.Return, ast.Assign, ast.Expr)) for s in t.body) and len(t.body) == 1
                     col.add(rule, f"{cx.qual}#documented-zero-division-guard", body_ok and narrow, cx.module.loc(h),
                             "the documented division-by-zero deviation: exactly ZeroDivisionError of the single division statement -> NaN",
